@@ -113,6 +113,12 @@ def gen_program(seed: int) -> Dict[str, Any]:
             args["c2c_expansion"] = round(rs.uniform(0.8, 1.25), 3)
         elif kind == "total":
             args["total_expansion"] = round(rs.uniform(0.4, 2.5), 3)
+        if rs.chance(0.1):
+            # a saw-tooth: the same graded division twice
+            saw = {"count": rs.randint(2, 4), "total_expansion": rs.pick([4, 0.25, 2.0]), "length_ratio": 0.5}
+            ops.append({"op": "chop", "target": hexops[bi]["name"], "axis": a, "args": dict(saw)})
+            ops.append({"op": "chop", "target": hexops[bi]["name"], "axis": a, "args": dict(saw)})
+            continue
         ops.append({"op": "chop", "target": hexops[bi]["name"], "axis": a, "args": args})
         # sometimes a second member asks for the same count with another expansion: blocks that lie
         # between the two take each edge from whichever neighbour owns it (edgeGrading)
@@ -526,6 +532,35 @@ def oracle(program: Dict[str, Any], run: Dict[str, Any]) -> Tuple[List[Dict[str,
                 if i0 > i1:
                     seq = list(reversed(seq))
                 edge_seqs.setdefault(frozenset((i0, i1)), []).append((bi_, seq))
+    # a chopped direction of a hex operation is written with its own chops (count alone, count + c2c,
+    # count + total expansion: the relative cell sizes follow from the declaration without solving)
+    declared: Dict[Tuple[str, int], List[Dict[str, Any]]] = {}
+    hexnames = {op["name"] for op in program["ops"] if op["op"] == "hex"}
+    for op in program["ops"]:
+        if op["op"] == "chop" and op["target"] in hexnames:
+            declared.setdefault((op["target"], op["axis"]), []).append(op["args"])
+    for oi, o in enumerate(ref.ops):
+        for a in range(3):
+            secs = declared.get((o.name, a))
+            if not secs or any(sc.get("count") is None or sc.get("start_size") is not None or sc.get("end_size") is not None
+                               or sc.get("preserve") in ("start_size", "end_size") for sc in secs):
+                continue
+            spec = []
+            for sc in secs:
+                n = max(int(sc["count"]), 1)
+                e = float(sc["total_expansion"]) if sc.get("total_expansion") is not None else (float(sc["c2c_expansion"]) ** (n - 1) if sc.get("c2c_expansion") is not None else 1.0)
+                spec.append((float(sc.get("length_ratio", 1.0)), float(n), e))
+            want = models.cell_sizes(1.0, spec, sum(int(x[1]) for x in spec))
+            b = d.blocks[match[oi]]
+            for k in range(4):
+                got = models.cell_sizes(1.0, b["gradings"][4 * a + k], b["counts"][a])
+                stats["declared_gradings_checked"] = stats.get("declared_gradings_checked", 0) + 1
+                if want is None or got is None or not models.seq_close(want, got, 1e-6, 1.0):
+                    bad("hex-grading-not-as-declared", f"operation {o.name} direction {a}: chops {secs} give relative cell sizes {want}, the hex entry describes {got}")
+                    break
+            else:
+                continue
+            break
     chopped_dirs = {(op["target"], op["axis"]) for op in program["ops"] if op["op"] == "chop"}
     entry_name = {match[oi]: o.name for oi, o in enumerate(ref.ops)}
     entry_axis_of_edge: Dict[Tuple[int, frozenset], int] = {}
